@@ -550,8 +550,10 @@ fn opts() -> ProcOpts {
     ProcOpts { chunk_timeout: Duration::from_secs(600), item_timeout: Duration::from_secs(180), chunk: None }
 }
 
-fn outer_panic(family: &'static str) -> impl Fn(u64, &mcx::panics::Caught) -> Violation + Sync {
-    move |i, c| Violation::new(format!("C27/panic@{}", site_of(c)), format!("panic outside a guarded call ({family} item {i}): {}", c.message), json!({"family": family, "index": i}))
+/// A panic that escapes the per-method isolation (round-trip items call the code under test
+/// directly): the witness is the same one the item itself would have produced.
+fn outer_panic(family: &'static str, wit: impl Fn(u64) -> Value + Sync) -> impl Fn(u64, &mcx::panics::Caught) -> Violation + Sync {
+    move |i, c| Violation::new(format!("C27/panic@{}", site_of(c)), format!("panic in {family} item {i}: {} ({}:{})", c.message, c.file, c.line), wit(i)).cost(i)
 }
 
 fn resp_family(name: &'static str, n: u64, at: impl Fn(u64) -> Vec<u8> + Sync) -> Stats {
@@ -560,7 +562,7 @@ fn resp_family(name: &'static str, n: u64, at: impl Fn(u64) -> Vec<u8> + Sync) -
         n,
         opts(),
         |i| eval_resp(name, &at(i), i),
-        Some(outer_panic(name)),
+        Some(outer_panic(name, |i| json!({"family": "resp", "from": name, "response_hex": hex(&at(i))}))),
         |i, crash, tail: &str| {
             let r = at(i);
             crash_violation(json!({"family": "resp", "from": name, "response_hex": hex(&r)}), format!("agent response {}", hex(&r)), crash, tail, ((r.len() as u64) << 40) | i)
@@ -591,7 +593,7 @@ fn replay(w: &Value) -> Vec<Violation> {
                 0,
             ),
         },
-        Some(outer_panic("replay")),
+        Some(outer_panic("replay", |_| w.clone())),
         |_, crash, tail: &str| crash_violation(w.clone(), "replayed item".into(), crash, tail, 0),
     );
     st.violations.by_fp.into_iter().filter_map(|(_, (mut ws, _))| if ws.is_empty() { None } else { Some(ws.remove(0)) }).collect()
@@ -621,7 +623,7 @@ fn main() {
                 unix.len() as u64,
                 opts(),
                 |i| eval_unix(&unix[i as usize].0, &unix[i as usize].1, i),
-                Some(outer_panic("unix")),
+                Some(outer_panic("unix", |i| json!({"family": "unix", "wire_hex": hex(&unix[i as usize].0), "desc": unix[i as usize].1}))),
                 |i, crash, tail: &str| crash_violation(json!({"family": "unix", "wire_hex": hex(&unix[i as usize].0), "desc": unix[i as usize].1}), format!("socket bytes {}", hex(&unix[i as usize].0)), crash, tail, i),
             ),
         ),
@@ -635,7 +637,10 @@ fn main() {
                     let (ty, b, d) = rt_at(i);
                     eval_rt(ty, &b, &d, i)
                 },
-                Some(outer_panic("rt")),
+                Some(outer_panic("rt", |i| {
+                    let (ty, b, d) = rt_at(i);
+                    json!({"family": "rt", "type": ty, "bytes_hex": hex(&b), "pattern": d})
+                })),
                 |i, crash, tail: &str| {
                     let (ty, b, d) = rt_at(i);
                     crash_violation(json!({"family": "rt", "type": ty, "bytes_hex": hex(&b), "pattern": d}), format!("round trip of {ty} {d}"), crash, tail, i)
